@@ -73,3 +73,14 @@ Theorem C20_reader_exists_then_open_refines : forall samples mx0 sched x,
   snd (exec3 sched (writer samples mx0) fs0 R3Start) = R3Done x ->
   exists sched', snd (exec sched' (writer samples mx0) fs0 RStart) = RDone x.
 Proof. exact reader3_results_reachable. Qed.
+
+(* the monitor and the clustering run share the output directory: nothing the run's start-up purge
+   or end-of-run cleanup deletes, and nothing the final round writes or renames, is one of the
+   monitor's files — stated on the deletion / publication plan that the translator extracts from
+   bblean/multiround.py on every run (Gen/GMrDel.v) *)
+From Coq Require Import String List.
+From BB Require Import Proofs.MonitorRun.
+Import ListNotations.
+Theorem C20_run_spares_monitor_files :
+  forallb MonitorRun.plan_spares ["max-rss.txt"%string; "max-rss.txt.tmp"%string; "monitor-rss.csv"%string] = true.
+Proof. exact source_plan_spares_monitor_files. Qed.
